@@ -359,6 +359,11 @@ def block_facts(ev, ctx, bb, unwind=False):
                         out.append(("no_ovf", c[1], c[2], c[3]))
                 else:
                     out.extend(bool_facts(c, bool(t["expected"])))
+    # antisymmetry: a <= b and b <= a give a == b (`while a > b {..}; if a < b {return}` leaves a == b)
+    les = [(f[1], f[2]) for f in out if f[0] == "le" and len(f) == 3]
+    for (a, b) in les:
+        if (b, a) in les and ("eq", a, b) not in out and ("eq", b, a) not in out:
+            out.append(("eq", a, b))
     if not getattr(ev, "_inprogress", None):
         ctx.memo[key] = out  # (facts computed in the middle of a local's evaluation may contain cycle markers)
     return out
